@@ -1633,6 +1633,458 @@ def gen_proto():
     return "\n".join(out), h
 
 
+# ---------------------------------------------------------------------------------------
+# class layer of ed25519_basic.py: ElementOfUnknownGroup / Element / _ZeroElement
+# ---------------------------------------------------------------------------------------
+
+EDSHAPE_HEADER = """-- GENERATED by tools/py2lean.py from src/spake2/ed25519_basic.py -- do not edit.
+-- Shape of the class layer: the methods `scalarmult`, `add`, `negate` of `ElementOfUnknownGroup`, `Element`
+-- and `_ZeroElement` (with Python's method resolution made explicit as a dispatch on the kind of the receiver)
+-- and the checks of `bytes_to_element`.  An object is `(kind, XYTZ)`; `Zero` is the only object of kind `zero`.
+-- `isinstance(x, C)` is a test on the kind, `x is Zero` is `kind = zero`.  The integer kernels are those of
+-- `Gen/Ed25519Arith.lean` (their internal `assert n >= 0` is not repeated here).
+-- `Spake2Verif/Proofs/EdShapeTie.lean` proves that the hand-written model `Model/Ed25519.lean` is exactly this.
+import Spake2Model.Gen.Ed25519Arith
+import Spake2Model.Model.Util
+import Spake2Model.Model.Bytes
+set_option linter.unusedVariables false
+namespace Spake2Model.Gen.EdShape
+
+/-- the class of a Python element object: `Element`, `ElementOfUnknownGroup`, `_ZeroElement` -/
+inductive K | elem | unknown | zero
+  deriving DecidableEq, Repr
+
+abbrev P4 := Int × Int × Int × Int
+"""
+
+ED_KINDS = [("unknown", "ElementOfUnknownGroup"), ("zero", "_ZeroElement"), ("elem", "Element")]   # base class first
+ED_METHODS = {"scalarmult": ("smul", ["int"]), "add": ("add", ["obj"]), "negate": ("negate", [])}
+ED_PRIMS = {
+    "add_elements": (["pt", "pt"], "Ed.add_elements Q d"),
+    "scalarmult_element": (["pt", "int"], "Ed.scalarmult_element Q"),
+    "scalarmult_element_safe_slow": (["pt", "int"], "Ed.scalarmult_element_safe_slow Q d"),
+}
+ED_RESERVED = (LEAN_RESERVED - {"self"}) | {"Q", "L", "d", "zeroPt", "K", "P4", "Ed", "Py", "Int", "Nat", "Bool", "True", "False", "e",
+                               "smul", "add", "negate", "dec_checks", "decUnknown", "toBytes", "zero_pt", "not", "or", "and"}
+ED_CMP = {ast.Eq: "=", ast.NotEq: "≠", ast.Lt: "<", ast.LtE: "≤", ast.Gt: ">", ast.GtE: "≥"}
+ED_ARGS = "Q L d zeroPt"
+ED_PARAMS = "(Q L d : Int) (zeroPt : P4)"
+
+
+class ESt:
+    def __init__(self, pm, where, emitted, extra=None):
+        self.pm, self.where, self.emitted = pm, where, emitted
+        self.locals = {}          # python local -> 'obj' | 'pt' | 'int' | 'bytes'
+        self.extra = extra or {}  # 'decUnknown' / 'toBytes' available (bytes_to_element only)
+        self.depth = 0
+        self.budget = [600]
+        self.binds = []           # fallible calls of the statement being translated, in evaluation order
+        self.ntmp = [0]
+
+    def fork(self):
+        c = ESt(self.pm, self.where, self.emitted, self.extra)
+        c.locals, c.depth, c.budget, c.ntmp = dict(self.locals), self.depth, self.budget, self.ntmp
+        return c
+
+    def bind(self, rexpr):
+        self.ntmp[0] += 1
+        t = "r_%d" % self.ntmp[0]
+        self.binds.append((t, rexpr))
+        return t
+
+    def tick(self, node):
+        self.budget[0] -= 1
+        if self.budget[0] < 0:
+            die(self.where, node, "function too large")
+
+    def glob(self, name):
+        """`name` refers to its single module-level binding"""
+        return name not in self.locals and self.pm.once(name)
+
+
+def ename(n, st, node=None):
+    if not re.match(r"^[A-Za-z_][A-Za-z0-9_]*$", n) or n in ED_RESERVED or n.startswith("__") or re.match(r"^r_\d+$", n):
+        die(st.where, node, "local name %s cannot be used in the generated Lean" % n)
+    return n
+
+
+def ed_kind_of_class(cname):
+    for k, c in ED_KINDS:
+        if c == cname:
+            return k
+    return None
+
+
+def eargs(call, want, st):
+    if not plain_call(call, len(want)):
+        die(st.where, call, "`%s`: expected %d positional argument(s)" % (ast.unparse(call)[:50], len(want)))
+    out = []
+    for a, w in zip(call.args, want):
+        t, v = ex(a, st)
+        if t != w:
+            die(st.where, a, "`%s` is %s where %s is expected" % (ast.unparse(a)[:40], t, w))
+        out.append(v)
+    return out
+
+
+def ex(e, st):
+    """an expression -> (type, Lean term); fallible calls are bound first (st.binds), in Python's evaluation order"""
+    st.tick(e)
+    pm = st.pm
+    if isinstance(e, ast.Name):
+        if e.id in st.locals:
+            return st.locals[e.id], ename(e.id, st, e)
+        if e.id == "Zero" and st.glob("Zero"):
+            return "obj", "(K.zero, zeroPt)"
+        if e.id == "L" and st.glob("L"):
+            return "int", "L"
+        die(st.where, e, "name %s is not a local, Zero or L" % e.id)
+    if isinstance(e, ast.Constant) and type(e.value) is int:
+        return "int", "(%d : Int)" % e.value
+    if isinstance(e, ast.Attribute) and e.attr == "XYTZ":
+        t, v = ex(e.value, st)
+        if t != "obj":
+            die(st.where, e, ".XYTZ of something that is not an element object")
+        return "pt", "%s.2" % v
+    if isinstance(e, ast.BinOp) and type(e.op) in (ast.Mod, ast.Add, ast.Sub, ast.Mult):
+        tl, l = ex(e.left, st)
+        tr, r = ex(e.right, st)
+        if tl != "int" or tr != "int":
+            die(st.where, e, "arithmetic on non-integers")
+        return "int", "(%s %s %s)" % (l, {ast.Mod: "%", ast.Add: "+", ast.Sub: "-", ast.Mult: "*"}[type(e.op)], r)
+    if isinstance(e, ast.UnaryOp) and isinstance(e.op, ast.USub):
+        t, v = ex(e.operand, st)
+        if t != "int":
+            die(st.where, e, "negation of a non-integer")
+        return "int", "(-%s)" % v
+    if isinstance(e, ast.Call):
+        f = e.func
+        if isinstance(f, ast.Name):
+            if f.id in ED_PRIMS and st.glob(f.id) and f.id in pm.fns:
+                want, lean = ED_PRIMS[f.id]
+                return "pt", "(%s %s)" % (lean, " ".join(eargs(e, want, st)))
+            if f.id in ("Element", "ElementOfUnknownGroup") and st.glob(f.id) and f.id in pm.classes:
+                return "obj", "(K.%s, %s)" % (ed_kind_of_class(f.id), eargs(e, ["pt"], st)[0])
+            if f.id == "bytes_to_unknown_group_element" and "decUnknown" in st.extra and st.glob(f.id):
+                return "obj", st.bind("decUnknown %s" % eargs(e, ["bytes"], st)[0])
+            if f.id in pm.fns and f.id not in ED_PRIMS and f.id != "is_extended_zero":
+                inl = pm.inline(e, st)
+                if inl is not None:
+                    r = ex(inl, st)
+                    st.depth -= 1
+                    return r
+        if isinstance(f, ast.Attribute):
+            if isinstance(f.value, ast.Name) and ed_kind_of_class(f.value.id) and st.glob(f.value.id) and f.attr in ED_METHODS:
+                # explicit base-class call  C.m(obj, ...)
+                lean, want = ED_METHODS[f.attr]
+                target = "%s_%s" % (lean, ed_kind_of_class(f.value.id))
+                if target not in st.emitted:
+                    die(st.where, e, "call of %s.%s before it is translated (recursion?)" % (f.value.id, f.attr))
+                a = eargs(e, ["obj"] + want, st)
+                return "obj", st.bind("%s %s %s" % (target, ED_ARGS, " ".join(a)))
+            if f.attr in ED_METHODS:
+                lean, want = ED_METHODS[f.attr]
+                t, v = ex(f.value, st)
+                if t != "obj":
+                    die(st.where, e, "method call on something that is not an element object")
+                if lean not in st.emitted:
+                    die(st.where, e, "call of .%s before it is translated (recursion?)" % f.attr)
+                a = eargs(e, want, st)
+                return "obj", st.bind("%s %s %s" % (lean, ED_ARGS, " ".join([v] + a)))
+            if f.attr == "to_bytes" and "toBytes" in st.extra and plain_call(e, 0):
+                t, v = ex(f.value, st)
+                if t != "obj":
+                    die(st.where, e, "to_bytes of something that is not an element object")
+                return "bytes", "(toBytes %s)" % v
+    die(st.where, e, "expression `%s`" % ast.unparse(e)[:60])
+
+
+def econd(e, st):
+    """a condition -> a decidable Lean Prop"""
+    st.tick(e)
+    pm = st.pm
+    if isinstance(e, ast.BoolOp):
+        parts = []
+        for i, v in enumerate(e.values):
+            n = len(st.binds)
+            parts.append(econd(v, st))
+            if i > 0 and len(st.binds) != n:
+                die(st.where, v, "fallible call under a short-circuit operator")
+        return "(" + (" ∧ " if isinstance(e.op, ast.And) else " ∨ ").join(parts) + ")"
+    if isinstance(e, ast.UnaryOp) and isinstance(e.op, ast.Not):
+        return "(¬ %s)" % econd(e.operand, st)
+    if isinstance(e, ast.Compare) and len(e.ops) == 1:
+        op, r = e.ops[0], e.comparators[0]
+        if isinstance(op, (ast.Is, ast.IsNot)):
+            if not (isinstance(r, ast.Name) and r.id == "Zero" and st.glob("Zero")):
+                die(st.where, e, "identity test against something other than Zero")
+            t, v = ex(e.left, st)
+            if t != "obj":
+                die(st.where, e, "`is Zero` on something that is not an element object")
+            c = "(%s.1 = K.zero)" % v
+            return c if isinstance(op, ast.Is) else "(¬ %s)" % c
+        if type(op) in ED_CMP:
+            tl, l = ex(e.left, st)
+            tr, rr = ex(r, st)
+            if tl == tr == "int" or (tl == tr == "bytes" and isinstance(op, (ast.Eq, ast.NotEq))):
+                return "(%s %s %s)" % (l, ED_CMP[type(op)], rr)
+        die(st.where, e, "comparison `%s`" % ast.unparse(e)[:60])
+    if isinstance(e, ast.Call) and isinstance(e.func, ast.Name):
+        f = e.func.id
+        if f == "isinstance" and f not in st.locals and pm.bindings.get(f, 0) == 0 and plain_call(e, 2):
+            c = e.args[1]
+            if not (isinstance(c, ast.Name) and ed_kind_of_class(c.id) and st.glob(c.id)):
+                die(st.where, e, "isinstance against something other than the three element classes")
+            t, v = ex(e.args[0], st)
+            if t == "int":
+                return "False"
+            if t != "obj":
+                die(st.where, e, "isinstance of a %s" % t)
+            ks = [k for k, cn in ED_KINDS if c.id in [x.name for x in pm.mro(cn)]]
+            if len(ks) == len(ED_KINDS):
+                return "True"
+            return "(" + " ∨ ".join("%s.1 = K.%s" % (v, k) for k in ks) + ")"
+        if f == "is_extended_zero" and st.glob(f) and f in pm.fns:
+            return "(Ed.is_extended_zero Q %s = true)" % eargs(e, ["pt"], st)[0]
+        if f in pm.fns and f not in ED_PRIMS:
+            inl = pm.inline(e, st)
+            if inl is not None:
+                r = econd(inl, st)
+                st.depth -= 1
+                return r
+    die(st.where, e, "condition `%s`" % ast.unparse(e)[:60])
+
+
+def ed_raise(s, st):
+    exc = s.exc
+    if isinstance(exc, ast.Call) and not exc.keywords and all(isinstance(a, ast.Constant) and isinstance(a.value, str) for a in exc.args):
+        exc = exc.func
+    if (s.cause is None and isinstance(exc, ast.Name) and exc.id not in st.locals and exc.id in PY_ERRS
+            and st.pm.bindings.get(exc.id, 0) == 0):
+        return "raise .%s" % exc.id
+    die(st.where, s, "raise of something other than a builtin exception with a literal message")
+
+
+def ed_helper_stmts(s, st):
+    """`self.h(a, ...)` as a statement, for a check-only helper method `h` defined once in the three classes (so that
+    it resolves to the same code whatever the class of self): its `if c: raise E` / `assert c` statements with the
+    arguments substituted (None when `s` is not such a statement)"""
+    pm = st.pm
+    c = s.value
+    if not (isinstance(s, ast.Expr) and isinstance(c, ast.Call) and isinstance(c.func, ast.Attribute)
+            and isinstance(c.func.value, ast.Name) and st.locals.get(c.func.value.id) == "obj"):
+        return None
+    defs = [(cd, n) for _, cn in ED_KINDS for cd in [pm.classes[cn]] for n in cd.body
+            if isinstance(n, (ast.FunctionDef, ast.AsyncFunctionDef, ast.ClassDef)) and n.name == c.func.attr]
+    if len(defs) != 1 or not isinstance(defs[0][1], ast.FunctionDef) or defs[0][0].name != ED_KINDS[0][1]:
+        die(st.where, s, "helper %s is not defined exactly once, in the base class" % c.func.attr)
+    fn = defs[0][1]
+    a = fn.args
+    static = len(fn.decorator_list) == 1 and isinstance(fn.decorator_list[0], ast.Name) and fn.decorator_list[0].id == "staticmethod" \
+        and pm.bindings.get("staticmethod", 0) == 0
+    if (fn.decorator_list and not static) or a.vararg or a.kwarg or a.kwonlyargs or a.defaults or getattr(a, "posonlyargs", []):
+        die(st.where, fn, "helper %s: unsupported signature / decorator" % fn.name)
+    actual = ([] if static else [c.func.value]) + list(c.args)
+    params = [x.arg for x in a.args]
+    if c.keywords or len(actual) != len(params) or len(set(params)) != len(params) or not all(isinstance(x, ast.Name) for x in actual):
+        die(st.where, s, "helper %s: not called with plain names for all parameters" % fn.name)
+    amap = dict(zip(params, actual))
+    body = [x for x in fn.body if not is_doc(x) and not isinstance(x, ast.Pass)]
+    for x in body:
+        ok = isinstance(x, ast.Assert) or (isinstance(x, ast.If) and not x.orelse and len(x.body) == 1 and isinstance(x.body[0], ast.Raise))
+        if not ok:
+            die(st.where, x, "helper %s does something other than `if c: raise E` / `assert c`" % fn.name)
+        for y in ast.walk(x):
+            if isinstance(y, ast.Name) and y.id not in amap and y.id in st.locals:
+                die(st.where, x, "helper %s: a global it reads is shadowed by a local of the caller" % fn.name)
+            if isinstance(y, (ast.Lambda, ast.ListComp, ast.SetComp, ast.DictComp, ast.GeneratorExp, ast.NamedExpr)):
+                die(st.where, x, "helper %s: unsupported expression" % fn.name)
+    import copy
+
+    class Sub(ast.NodeTransformer):
+        def visit_Name(self, node):
+            return copy.deepcopy(amap[node.id]) if node.id in amap else node
+    return [ast.fix_missing_locations(Sub().visit(copy.deepcopy(x))) for x in body]
+
+
+def eblock(ss, st, ind):
+    """statements -> Lean lines, continuation style (what follows an `if` is copied into the arms that fall through)"""
+    lines = []
+
+    def flush(ind):
+        for t, r in st.binds:
+            pad = " " * ind
+            lines.append("%smatch %s with" % (pad, r))
+            lines.append("%s| .error e => .error e" % pad)
+            lines.append("%s| .ok %s =>" % (pad, t))
+            ind += 2
+        st.binds = []
+        return ind
+    for idx, s in enumerate(ss):
+        rest = ss[idx + 1:]
+        st.tick(s)
+        if is_doc(s) or isinstance(s, ast.Pass):
+            continue
+        if isinstance(s, ast.Expr):
+            h = ed_helper_stmts(s, st)
+            if h is None:
+                die(st.where, s, "statement `%s`" % ast.unparse(s).split("\n")[0][:60])
+            st.depth += 1
+            if st.depth > 6:
+                die(st.where, s, "helper calls nested too deeply")
+            return lines + eblock(h + rest, st, ind)
+        if isinstance(s, ast.Assign):
+            if len(s.targets) != 1 or not isinstance(s.targets[0], ast.Name):
+                die(st.where, s, "assignment `%s`" % ast.unparse(s)[:60])
+            n = s.targets[0].id
+            t, v = ex(s.value, st)
+            if st.locals.get(n, t) != t:
+                die(st.where, s, "local %s changes its type" % n)
+            if n not in st.locals and st.pm.bindings.get(n, 0) and n in ("Zero", "L", "Q", "d"):
+                die(st.where, s, "local %s shadows a module constant" % n)
+            ind = flush(ind)
+            lines.append("%slet %s := %s" % (" " * ind, ename(n, st, s), v))
+            st.locals[n] = t
+            continue
+        if isinstance(s, ast.Return):
+            if s.value is None:
+                die(st.where, s, "return without a value")
+            t, v = ex(s.value, st)
+            if t != "obj":
+                die(st.where, s, "returns a %s, not an element object" % t)
+            ind = flush(ind)
+            lines.append("%s.ok %s" % (" " * ind, v))
+            return lines
+        if isinstance(s, ast.Raise):
+            lines.append(" " * ind + ed_raise(s, st))
+            return lines
+        if isinstance(s, ast.Assert):
+            if s.msg is not None and not isinstance(s.msg, ast.Constant):
+                die(st.where, s, "assert with a computed message")
+            c = econd(s.test, st)
+            ind = flush(ind)
+            lines.append("%sif %s then" % (" " * ind, c))
+            lines += eblock(rest, st.fork(), ind + 2)
+            lines.append("%selse raise .AssertionError" % (" " * ind))
+            return lines
+        if isinstance(s, ast.If):
+            c = econd(s.test, st)
+            ind = flush(ind)
+            arm1 = s.body + ([] if terminates(s.body) else rest)
+            arm2 = s.orelse + ([] if terminates(s.orelse) else rest)
+            lines.append("%sif %s then" % (" " * ind, c))
+            lines += eblock(arm1, st.fork(), ind + 2)
+            lines.append("%selse" % (" " * ind))
+            lines += eblock(arm2, st.fork(), ind + 2)
+            return lines
+        die(st.where, s, "statement `%s`" % ast.unparse(s).split("\n")[0][:60])
+    die(st.where, ss[-1] if ss else None, "control reaches the end of the function without return / raise")
+
+
+def ed_check_classes(pm, mod):
+    """the facts about the three classes that the (kind, XYTZ) representation relies on"""
+    w = "ed25519_basic.py"
+    names = [c for _, c in ED_KINDS]
+    for k, cn in ED_KINDS:
+        m = [x.name for x in pm.mro(cn)]
+        if m != ([cn] if k == "unknown" else [cn, ED_KINDS[0][1]]):
+            die(w, pm.classes[cn], "class %s: unexpected base classes" % cn)
+        for n in pm.classes[cn].body:
+            if is_doc(n) or isinstance(n, ast.Pass):
+                continue
+            if not isinstance(n, ast.FunctionDef):
+                die(w, n, "class %s: something other than a method in the class body" % cn)
+            if n.name == "XYTZ" or (n.name.startswith("__") and n.name not in ("__init__", "__eq__", "__ne__")):
+                die(w, n, "class %s: special method / attribute %s" % (cn, n.name))
+            if n.name == "__init__":
+                body = [ast.unparse(x) for x in n.body if not is_doc(x)]
+                a = n.args
+                if (k != "unknown" or n.decorator_list or [x.arg for x in a.args] != ["self", "XYTZ"] or a.vararg or a.kwarg or a.kwonlyargs
+                        or a.defaults or body.count("self.XYTZ = XYTZ") != 1
+                        or any(b not in ("self.XYTZ = XYTZ", "assert isinstance(XYTZ, tuple)", "assert len(XYTZ) == 4") for b in body)):
+                    die(w, n, "%s.__init__ is not `self.XYTZ = XYTZ` (with the two assertions)" % cn)
+    if "__init__" not in [n.name for n in pm.classes[ED_KINDS[0][1]].body if isinstance(n, ast.FunctionDef)]:
+        die(w, pm.classes[ED_KINDS[0][1]], "no __init__")
+    for n in ast.walk(mod):
+        if isinstance(n, ast.ClassDef) and n.name not in names and any(isinstance(x, ast.Name) and x.id in names for b in n.bases for x in ast.walk(b)):
+            die(w, n, "another subclass of the element classes")
+        if isinstance(n, ast.Attribute) and isinstance(n.ctx, (ast.Store, ast.Del)):
+            if n.attr in ("XYTZ", "__class__", "__dict__") and ast.unparse(n) != "self.XYTZ":
+                die(w, n, "store to .%s" % n.attr)
+            if isinstance(n.value, ast.Name) and (n.value.id in names or n.value.id == "Zero"):
+                die(w, n, "store to an attribute of %s" % n.value.id)
+        if isinstance(n, ast.Call) and isinstance(n.func, ast.Name) and n.func.id in ("setattr", "delattr", "_ZeroElement"):
+            if not (n.func.id == "_ZeroElement" and ast.unparse(n) == "_ZeroElement(xform_affine_to_extended((0, 1)))"):
+                die(w, n, "call of %s" % n.func.id)
+    stores = [n for n in ast.walk(mod) if isinstance(n, ast.Attribute) and isinstance(n.ctx, ast.Store) and n.attr == "XYTZ"]
+    if len(stores) != 1:
+        die(w, mod, "XYTZ is stored more than once")
+    z = [n for n in mod.body if isinstance(n, ast.Assign) and any(isinstance(x, ast.Name) and x.id == "Zero" for t in n.targets for x in ast.walk(t))]
+    if (len(z) != 1 or not pm.once("Zero") or ast.unparse(z[0]) != "Zero = _ZeroElement(xform_affine_to_extended((0, 1)))"
+            or not pm.once("xform_affine_to_extended") or not pm.once("L")):
+        die(w, z[0] if z else mod, "Zero is not `_ZeroElement(xform_affine_to_extended((0,1)))`, bound once")
+    calls = [n for n in ast.walk(mod) if isinstance(n, ast.Call) and isinstance(n.func, ast.Name) and n.func.id == "_ZeroElement"]
+    if len(calls) != 1:
+        die(w, mod, "_ZeroElement is instantiated more than once")
+
+
+def gen_edshape():
+    src, mod, h = read("ed25519_basic.py")
+    w = "ed25519_basic.py"
+    pm = ProtoMod(mod, w)
+    ed_check_classes(pm, mod)
+    out = [EDSHAPE_HEADER]
+    out.append("/-- the coordinates of `Zero = _ZeroElement(xform_affine_to_extended((0,1)))` -/\n"
+               "def zero_pt (Q : Int) : P4 := Ed.xform_affine_to_extended Q ((0 : Int), (1 : Int))\n")
+    emitted = set()
+    for pyname in ("scalarmult", "add", "negate"):
+        lean, want = ED_METHODS[pyname]
+        for k, cn in ED_KINDS:
+            try:
+                c, fn = pm.member(cn, pyname)
+            except Untranslatable as e:
+                if pyname != "negate" or not str(e).endswith("%s.%s not found" % (cn, pyname)):
+                    raise
+                c, fn = None, None
+            target = "%s_%s" % (lean, k)
+            if fn is None:
+                out.append("/-- `%s` has no method `%s` -/\ndef %s %s (self : K × P4) : R (K × P4) :=\n  raise .AttributeError\n" % (
+                    cn, pyname, target, ED_PARAMS))
+                emitted.add(target)
+                continue
+            st = ESt(pm, "%s:%s.%s" % (w, c.name, pyname), emitted)
+            a = getattr(fn, "args", None)
+            if (not isinstance(fn, ast.FunctionDef) or fn.decorator_list or a.vararg or a.kwarg or a.kwonlyargs or a.defaults
+                    or getattr(a, "posonlyargs", []) or len(a.args) != len(want) + 1 or len({x.arg for x in a.args}) != len(a.args)):
+                die(w, fn, "%s.%s is not a plain method with %d parameter(s)" % (c.name, pyname, len(want)))
+            ps = []
+            for x, t in zip(a.args, ["obj"] + want):
+                st.locals[x.arg] = t
+                ps.append("(%s : %s)" % (ename(x.arg, st, fn), {"obj": "K × P4", "int": "Int"}[t]))
+            body = eblock(fn.body, st, 2)
+            out.append("/-- translated from `%s.%s`%s -/\ndef %s %s %s : R (K × P4) :=\n%s\n" % (
+                c.name, pyname, "" if c.name == cn else " (inherited by `%s`)" % cn, target, ED_PARAMS, " ".join(ps), "\n".join(body)))
+            emitted.add(target)
+        extra = " (s : Int)" if want == ["int"] else " (b : K × P4)" if want == ["obj"] else ""
+        ar = " s" if want == ["int"] else " b" if want == ["obj"] else ""
+        out.append("/-- `a.%s(...)`: the method Python resolves for the class of `a` -/\ndef %s %s (a : K × P4)%s : R (K × P4) :=\n"
+                   "  match a.1 with\n%s\n" % (pyname, lean, ED_PARAMS, extra, "\n".join(
+                       "  | .%s => %s_%s %s a%s" % (k, lean, k, ED_ARGS, ar) for k, _ in reversed(ED_KINDS))))
+        emitted.add(lean)
+
+    # bytes_to_element: the checks after decoding (decoding and to_bytes are parameters)
+    fn = plain_function(pm, "bytes_to_element", 1)
+    st = ESt(pm, w + ":bytes_to_element", emitted, {"decUnknown": 1, "toBytes": 1})
+    p = fn.args.args[0].arg
+    st.locals[p] = "bytes"
+    body = eblock(fn.body, st, 2)
+    out.append("/-- translated from `bytes_to_element`; `decUnknown` is `bytes_to_unknown_group_element`, `toBytes` is `to_bytes` -/\n"
+               "def dec_checks %s (decUnknown : Bytes → R (K × P4)) (toBytes : K × P4 → Bytes) (%s : Bytes) : R (K × P4) :=\n%s\n" % (
+                   ED_PARAMS, ename(p, st, fn), "\n".join(body)))
+    out.append("end Spake2Model.Gen.EdShape\n")
+    return "\n".join(out), h
+
+
 def write_if_changed(path, txt):
     old = open(path).read() if os.path.exists(path) else None
     if old != txt:
@@ -1647,7 +2099,7 @@ def write_if_changed(path, txt):
 def main():
     report = {"ok": True, "files": {}, "errors": [], "changed": []}
     jobs = [("Ed25519Arith.lean", gen_ed25519), ("IntGroupArith.lean", gen_intgroup), ("UtilArith.lean", gen_util), ("Consts.lean", gen_consts),
-            ("ProtoShape.lean", gen_proto)]
+            ("ProtoShape.lean", gen_proto), ("EdShape.lean", gen_edshape)]
     for fname, job in jobs:
         try:
             txt, h = job()
